@@ -88,7 +88,26 @@ type event struct {
 
 var errCB = errors.New("callback failed")
 
-func runCase(c c11Case) (f *vh.Failure) {
+// patience: see C03 - a verdict reached after a wall-clock bound was hit is only reported if
+// the case fails again with ten times the patience.
+var patience = 2 * time.Second
+
+func runCase(c c11Case) *vh.Failure {
+	t0 := time.Now()
+	f := runCaseOnce(c)
+	if f != nil && time.Since(t0) >= patience-100*time.Millisecond {
+		vh.Label("timing-verdict-repeated")
+		patience *= 10
+		f = runCaseOnce(c)
+		patience /= 10
+		if f == nil {
+			vh.Label("timing-verdict-not-confirmed")
+		}
+	}
+	return f
+}
+
+func runCaseOnce(c c11Case) (f *vh.Failure) {
 	defer func() {
 		if r := recover(); r != nil {
 			vh.CheckHarnessPanic(r)
@@ -203,7 +222,7 @@ func runCase(c c11Case) (f *vh.Failure) {
 		var cbErr error
 		var cbSeen int
 		until := func() {
-			wctx, wcancel := context.WithTimeout(bg, 2*time.Second)
+			wctx, wcancel := context.WithTimeout(bg, patience)
 			defer wcancel()
 			calls := 0
 			for {
@@ -256,7 +275,7 @@ func runCase(c c11Case) (f *vh.Failure) {
 		if r.FailAt >= 0 && r.Poll {
 			select {
 			case <-polled:
-			case <-time.After(5 * time.Second):
+			case <-time.After(patience + 3*time.Second):
 				return vh.Failf("C11/consumer-blocked", "%s: the polling consumer did not finish", where)
 			}
 		}
